@@ -8,7 +8,6 @@ DROPS = 'extraction drops: preprocessor-disabled OpenCL/OpenGL/PNG branches, des
 
 PENDING = 'not yet claimed: units for this property are still being brought under contract (see DESIGN.md §10)'
 NOT_APPLICABLE = {
-    'C11': 'relation between two complete program executions through an HDF5 file; no function contract expresses it (DESIGN §6)',
     'C20': 'behaviour is produced inside boost::program_options; a contract proof would be about an axiomatisation of boost (DESIGN §6)',
 }
 
@@ -253,6 +252,21 @@ PROPERTIES = {
         'assumptions': [DROPS, 'HDF5File: the pairing dataset <- source accessor, the record extents of every dataset against the layout of its source buffer (class invariants of PhaseSpace / ElectricField / KickMap), and one record per append call are obligations over AST facts; append(const ElectricField*, bool) is enforced by the VCG with _appendData bound to a capture of pointer and buffer contents; the HDF5 library is trusted to transfer exactly the selected extents'],
         'uncovered': ['frequency axis values', 'unit-conversion attributes other than the wake scale and Volt factor', 'time values of intermediate records'],
         'explanation': 'ghost row counters on the control skeleton',
+        'technique': TECH,
+    },
+    'C11': {
+        'units': [io.ReadPhaseSpace],
+        'native_sweep': {'harness': 'h5start_replay', 'runs': [['all']], 'hdf5': True},
+        'lemmas': [],
+        'level': 'other',
+        'claim': 'the loading half only: HDF5File::readPhaseSpace selects exactly the requested record of /PhaseSpace/data (use_step counted from the end when negative, -1 = last), the whole record for the square grids Inovesa writes, '
+                 'reads it into a single-bunch phase space whose grid size is the one stored in the file and whose buffer the read fits; a multi-bunch record, an unexpected rank, a file without records or an unusable grid size is refused by an exception '
+                 '(turned into a message and a null result by makePSFromHDF5). That continuing for T2 periods ends in the phase space of an uninterrupted run is a statement about two whole executions and is not covered',
+        'assumptions': [A_LIB, DROPS, 'HDF5 library: getSimpleExtentDims reports the extents of the dataset (record count < 2^48, per-record extents < 2^31), selectHyperslab(count,start) selects prod(count) points starting at start, '
+                        'DataSet::read transfers as many elements as the memory data space holds, a null extent array with positive rank is reported as an error (observed: rank-2 file)',
+                        'every other member call on an H5:: object is bound to a generic contract: may write through its pointer arguments, returns an arbitrary value'],
+        'uncovered': ['equality of the continued run with the uninterrupted run (two program executions)', 'bit-exactness of the stored values (HDF5 type conversion is library behaviour)', 'missing or unreadable file (H5::H5File constructor throws: library behaviour; the catch blocks of makePSFromHDF5 are not under contract)'],
+        'explanation': 'contract of HDF5File::readPhaseSpace with the HDF5 calls bound to stated library contracts',
         'technique': TECH,
     },
     'C13': {
